@@ -27,7 +27,7 @@ def mk_sub_and_candidates(ex, prog, n):
 
 
 def budget_kernel(chk, prog):
-    N = 3
+    N = 7 if chk.thorough else 5
 
     def harness(ex, ob):
         n = ex.choose(N + 1)
@@ -160,7 +160,7 @@ class Stop(PathAbort):
 
 def sender_step(chk, prog):
     """one iteration of the real sender closure from an arbitrary state of its captured variables satisfying the bound"""
-    NP, NC = 2, 2
+    NP, NC = (4, 4) if chk.thorough else (3, 3)
     fn = find_closure(prog, MS + 'Go', ['NewGetSubscriptionMessages'])
 
     def harness(ex, ob):
